@@ -6,7 +6,8 @@ import streams, applyc
 
 THEOREMS = {"C07": ["exit_status_range"],
             "C08": ["sget_line_some", "parse_unified_fueled", "parse_normal_fueled", "parse_context_fueled", "parse_context_hunk_spec",
-                    "parse_patch_body_fueled", "parse_quoted_string_fueled", "parse_patch_header_fueled"]}
+                    "parse_patch_body_fueled", "parse_quoted_string_fueled", "parse_patch_header_fueled",
+                    "body_progress", "header_full_spec", "section_loop_fueled", "process_patch_fueled"]}
 
 EXTREMES = ["0", "1", "9223372036854775807", "9223372036854775806", "9223372036854775808", "18446744073709551615", "99999999999999999999", "2147483647", "2147483648", "4294967296"]
 
